@@ -86,7 +86,7 @@ def run(ck):
     tp = os.path.join(ck.dir, "g.ndjson")
     deaths = vlib.run_executions(exe, lambda st: ["c05", "replay", sp, st], len(scripts), tp)
     vlib.conformance(ck, "G:edge-cover-replay", "TraceRefHeap", "trace.cfg", tp, deaths, diag_of, min_events=len(scripts))
-    n = 1200 if thorough else 200
+    n = 4000 if thorough else 200
     tp = os.path.join(ck.dir, "v.ndjson")
     deaths = vlib.run_executions(exe, lambda st: ["c05", "drive", st, n, 200], n, tp)
     vlib.conformance(ck, "V:random-clients", "TraceRefHeap", "trace.cfg", tp, deaths, diag_of, min_events=n)
